@@ -360,6 +360,12 @@ def run_correspondence(res, family, cases, prop, corr_name=None):
     cases: list of dicts {id, line, meta}; prop: module with oracle(case, obs), nontrivial(case),
     classify(case, obs, why) -> known-finding key or None."""
     corr_name = corr_name or ("correspondence model<->code, family " + family)
+    # case ids key the observations: make them unique (two generator batches may number from 0 again)
+    seen_ids = set()
+    for k, c in enumerate(cases):
+        if c["id"] in seen_ids:
+            c["id"] = "%s_%d" % (c["id"], k)
+        seen_ids.add(c["id"])
     lines = ["%s %s" % (c["id"], c["line"]) for c in cases]
     grp = getattr(prop, "shard_group", None)
     go = shard_run(os.path.join(BUILD, "hcdrv"), family, lines)
@@ -414,6 +420,7 @@ def run_correspondence(res, family, cases, prop, corr_name=None):
                 res.violations.append((key or "oracle", {
                     "property": res.pid, "family": family, "seed": res.seed, "case": c["line"],
                     "implementation_observed": g, "model_predicted": m, "required": why,
+                    "meta": c.get("meta"), "stream": c.get("stream"),
                     "failing_input_found": True,
                     "replay": "python3 tools/check.py %s --replay <this file>" % res.pid}))
     res.extra["disagreements"] = res.extra.get("disagreements", 0) + disagreements
